@@ -42,7 +42,7 @@ ImplOptionOverridesTag ==
 
 (* compatible tags split between file and options *)
 ImplMixedIndependent ==
-  (Once /\ ev.kind = "pair" /\ ~Exclusive(EvCase)) =>
+  (Once /\ ev.kind \in {"pair", "triple"} /\ ~Exclusive(EvCase)) =>
      \A r1, r2 \in Runs : Eff(r1.res) = Eff(r2.res)
 
 (* tags have the effect the table records for them (file route; merged flow); *)
